@@ -10,13 +10,18 @@ Norm(n,d) == LET s == IF d < 0 THEN -1 ELSE 1
              IN IF n = 0 THEN <<0,1>> ELSE <<(s*n) \div g, (s*d) \div g>>
 R(n) == <<n,1>>
 Q(n,d) == Norm(n,d)
-Add(x,y) == Norm(x[1]*y[2] + y[1]*x[2], x[2]*y[2])
+\* cross-reduced arithmetic: intermediates stay as small as the results allow (32-bit TLC integers)
+Add(x,y) == LET g == GCD(x[2], y[2]) IN Norm(x[1]*(y[2] \div g) + y[1]*(x[2] \div g), (x[2] \div g)*y[2])
 Neg(x) == <<-x[1], x[2]>>
 Sub(x,y) == Add(x, Neg(y))
-Mul(x,y) == Norm(x[1]*y[1], x[2]*y[2])
-Div(x,y) == Norm(x[1]*y[2], x[2]*y[1])
-Lt(x,y) == x[1]*y[2] < y[1]*x[2]
-Le(x,y) == x[1]*y[2] <= y[1]*x[2]
+Mul(x,y) == IF x[1] = 0 \/ y[1] = 0 THEN <<0,1>>
+            ELSE LET g1 == GCD(IAbs(x[1]), y[2])
+                     g2 == GCD(IAbs(y[1]), x[2])
+                 IN <<(x[1] \div g1)*(y[1] \div g2), (x[2] \div g2)*(y[2] \div g1)>>
+Inv(y) == IF y[1] < 0 THEN <<-y[2], -y[1]>> ELSE <<y[2], y[1]>>
+Div(x,y) == Mul(x, Inv(y))
+Lt(x,y) == LET g == GCD(x[2], y[2]) IN x[1]*(y[2] \div g) < y[1]*(x[2] \div g)
+Le(x,y) == LET g == GCD(x[2], y[2]) IN x[1]*(y[2] \div g) <= y[1]*(x[2] \div g)
 RAbs(x) == <<IAbs(x[1]), x[2]>>
 Sgn(x) == IF x[1] > 0 THEN 1 ELSE IF x[1] < 0 THEN -1 ELSE 0
 Half(x) == Div(x, R(2))
